@@ -8,6 +8,7 @@ package client
 // file-system calls and restarted.
 
 import (
+	"errors"
 	"os"
 	"path/filepath"
 	"time"
@@ -34,6 +35,7 @@ type vRecv struct {
 	sent     int64 // bytes transmitted in total
 	resent   int64 // bytes transmitted although the receiver already held them
 	requests int
+	faults   int // transmissions that may still fail
 }
 
 func (r *vRecv) held(name string) int64 {
@@ -57,9 +59,25 @@ func (r *vRecv) has(name string, beg, end int64) bool {
 	return false
 }
 
+// transmit: the data request. While the fault budget lasts a request may fail
+// (1) before the receiver got anything, (2) after the receiver recorded the
+// first part, with the answer lost, (3) the same with a 206 answer carrying
+// the number of parts recorded.
 func (r *vRecv) transmit(p sts.Payload) (int, error) {
 	r.requests++
-	for _, part := range p.GetParts() {
+	fault := 0
+	if r.faults > 0 {
+		if fault = r.v.Choose("transmit-fault", 4); fault != 0 {
+			r.faults--
+		}
+	}
+	if fault == 1 {
+		return 0, errFault
+	}
+	for k, part := range p.GetParts() {
+		if fault >= 2 && k >= 1 {
+			break
+		}
 		beg, n := part.GetSlice() // sender-side parts: (offset, length)
 		end := beg + n
 		name := part.GetName()
@@ -84,14 +102,22 @@ func (r *vRecv) transmit(p sts.Payload) (int, error) {
 			r.ranges[name] = append(r.ranges[name], [2]int64{beg, end})
 		}
 	}
+	switch fault {
+	case 2:
+		return 0, errFault
+	case 3:
+		return 1, errFault
+	}
 	return len(p.GetParts()), nil
 }
+
+var errFault = errors.New("connection reset")
 
 func (r *vRecv) recoverTransmission(p sts.Payload) (int, error) {
 	n := 0
 	for _, part := range p.GetParts() {
-		beg, n := part.GetSlice()
-		end := beg + n
+		beg, ln := part.GetSlice()
+		end := beg + ln
 		if r.hash[part.GetName()] != part.GetFileHash() || !r.has(part.GetName(), beg, end) {
 			break
 		}
@@ -163,7 +189,7 @@ func H_C07_Pipeline(v *verifrt.T) {
 	v.Version("v1", size)
 	mtime := v.Now().Add(-2 * time.Hour)
 	src := &vSource{v: v, files: map[string]*vSrcFile{"g/a": {name: "g/a", size: size, time: mtime, tag: "v1"}}, order: []string{"g/a"}}
-	recv := &vRecv{v: v, size: map[string]int64{}, hash: map[string]string{}, ranges: map[string][][2]int64{}}
+	recv := &vRecv{v: v, size: map[string]int64{}, hash: map[string]string{}, ranges: map[string][][2]int64{}, faults: v.Param("FAULTS", 0)}
 	del := v.Bool("delete-after-confirmation")
 	run := func() {
 		c, err := cache.NewJSON(cdir, "/out", "k")
